@@ -262,7 +262,12 @@ def run(ck: Check):
             for addr, to in ops_:
                 def cb(connected, mtu, error, addr=addr):
                     cbs[addr] += 1
-                ts_.append(tasks._PyTask(client.bluetooth_device_connect(addr, cb, timeout=to, disconnect_timeout=20.0),
+                # the connect flavours (with / without the device's cache, with an address type) share everything the
+                # property speaks about: rotated
+                _variant[0] += 1
+                kw = [{}, {"has_cache": True}, {"feature_flags": 1 << 3}, {"address_type": 1}, {"has_cache": True, "address_type": 0},
+                      {"feature_flags": 0x7F}][_variant[0] % 6]
+                ts_.append(tasks._PyTask(client.bluetooth_device_connect(addr, cb, timeout=to, disconnect_timeout=20.0, **kw),
                                          loop=loop, name=f"bconn{addr}", eager_start=True))
             loop.run_idle()
             for e in evs:
@@ -470,6 +475,41 @@ def run(ck: Check):
                          f"timers {timers}", {"messages": toks})
         net.close()
     dist["service_discoveries"] = n_disc
+    # writes that do not wait for a response (characteristic with response=False, descriptor with wait_for_response=False): the
+    # call returns at once having written exactly one request for its address and handle, subscribes to nothing, and no later
+    # message (its own response, an error, a connection change) has anything to complete or fail
+    n_nowait = 0
+    for a, h in itertools.product((A, B), (1, 2)):
+        for flavour in ("char", "desc"):
+            net, client, conn, _ = simnet.established(keepalive=100000.0)
+            loop = net.loop
+            base = {k: len(v) for k, v in conn._message_handlers.items()}
+            before = len(net.written())
+            coro = (client.bluetooth_gatt_write(a, h, b"xyz", False) if flavour == "char"
+                    else client.bluetooth_gatt_write_descriptor(a, h, b"xyz", wait_for_response=False))
+            t = tasks._PyTask(coro, loop=loop, eager_start=True)
+            done_at_once = t.done()
+            loop.run_idle()
+            wr = [(ty, p) for _, ty, p in net.written()[before:]]
+            extra, waiters, timers = leftovers(conn, loop, base)
+            ok = done_at_once and not t.cancelled() and t.exception() is None and len(wr) == 1 and not extra and not waiters and not timers
+            if ok:
+                want_cls = pb.BluetoothGATTWriteRequest if flavour == "char" else pb.BluetoothGATTWriteDescriptorRequest
+                m = want_cls()
+                m.ParseFromString(wr[0][1])
+                ok = wr[0][0] == simnet.PROTO_TO_ID[want_cls] and m.address == a and m.handle == h and bytes(m.data) == b"xyz" and \
+                    (flavour == "desc" or m.response is False)
+            for msg in (pb.BluetoothGATTWriteResponse(address=a, handle=h), pb.BluetoothGATTErrorResponse(address=a, handle=h, error=1),
+                        pb.BluetoothDeviceConnectionResponse(address=a, connected=False)):
+                net.send(msg)
+                loop.run_idle()
+            if not ok or conn.connection_state is not simnet.ac.CONNECTION_STATE_CONNECTED:
+                ck.violation(f"c16:write-no-response:{flavour}", f"GATT {flavour} write to ({a}, {h}) without waiting for a response: returned at once="
+                             f"{done_at_once}, requests written {[(ty, len(p)) for ty, p in wr]}, handlers left {extra}, waiters {waiters}, timers {timers}",
+                             {"address": a, "handle": h, "flavour": flavour})
+            n_nowait += 1
+            net.close()
+    dist["writes_without_response"] = n_nowait
     # ---- model vs implementation
     live_lines = [l for l in lines if l is not None] + conn_lines
     live_impl = [o for l, o in zip(lines, impl) if l is not None] + conn_impl
@@ -494,4 +534,4 @@ def run(ck: Check):
         "samples": [{"ops": scen[i][0], "feed": scen[i][1], "cancel": scen[i][2]} for i in (0, len(scen) // 2, len(scen) - 1)],
         "distribution": dist, "exhaustive": False,
     })
-    ck.assumptions += ["the write-without-response paths are covered by C11/C15/C13 only"]
+    ck.assumptions += ["writes that do not wait for a response are judged by the oracle only (they involve no device message)"]
